@@ -8,8 +8,9 @@ V = os.path.dirname(os.path.dirname(os.path.abspath(__file__)))
 ids = [json.loads(l)["id"] for l in open(os.path.join(V, "properties.jsonl"))]
 baseline = json.load(open("/root/.vp/BASELINE.json"))["cmd"] if os.path.exists("/root/.vp/BASELINE.json") else "cd /repo && go test -mod=mod -vet=off -count=1 ./..."
 checks = []
+READY = set(open(os.path.join(V, "runner", "ready.txt")).read().split())
 for pid in ids:
-    if pid not in PROPS:
+    if pid not in PROPS or pid not in READY:
         continue
     s = PROPS[pid]
     checks.append({
@@ -23,7 +24,7 @@ for pid in ids:
         "level_note": s["level_note"],
         "technique": s.get("technique", "Lean 4 theorems about an executable model + regenerated-facts tie + differential/trace-acceptance correspondence against the real code"),
     })
-na = [{"property_id": p, "reason": NOT_APPLICABLE.get(p, "check not built yet in this round; nothing is claimed for it")} for p in ids if p not in PROPS]
+na = [{"property_id": p, "reason": NOT_APPLICABLE.get(p, "check not built yet in this round; nothing is claimed for it")} for p in ids if p not in PROPS or p not in READY]
 m = {
     "version": 1,
     "setup_cmd": "cd /verif && ./check setup",
@@ -36,7 +37,7 @@ m = {
 }
 engs = {}
 for pid, s in PROPS.items():
-    if pid not in ids:
+    if pid not in ids or pid not in READY:
         continue
     for e in s.get("engines", []):
         engs.setdefault(e["engine"], []).append(pid)
